@@ -324,4 +324,80 @@ theorem run_projection (i : Nat) (ops : List (Nat × Bytes)) : ∀ (w1 w2 : Worl
         simp [hji]
       rw [this, List.nil_append]
 
+theorem flatMap_congr_mem {α β : Type} (l : List α) (f g : α → List β) (h : ∀ x ∈ l, f x = g x) :
+    l.flatMap f = l.flatMap g := by
+  induction l with
+  | nil => rfl
+  | cons a l ih =>
+    simp only [List.flatMap_cons]
+    rw [h a List.mem_cons_self, ih (fun x hx => h x (List.mem_cons_of_mem _ hx))]
+
+theorem closeIds_lookup_other (env : Env) (ids : List Nat) : ∀ (conns : List (Nat × Conn)) (j : Nat), j ∉ ids →
+    (closeIds env conns ids).1.lookup j = conns.lookup j := by
+  induction ids with
+  | nil => intro conns j _; rfl
+  | cons id ids ih =>
+    intro conns j hj
+    have hne : j ≠ id := fun h => hj (h ▸ List.mem_cons_self)
+    have hj' : j ∉ ids := fun h => hj (List.mem_cons_of_mem _ h)
+    simp only [closeIds]
+    cases hc : conns.lookup id with
+    | none => exact ih conns j hj'
+    | some c => simp only []; rw [ih _ j hj', lookup_setConn_ne id j _ _ hne]
+
+/-- every listed connection ends closed with an empty pending table (closing is idempotent, so this holds for
+    any id list) -/
+theorem closeIds_closes (env : Env) (ids : List Nat) : ∀ (conns : List (Nat × Conn)) (id : Nat) (c : Conn),
+    id ∈ ids → conns.lookup id = some c →
+    ∃ c', (closeIds env conns ids).1.lookup id = some c' ∧ c'.closed = true ∧ c'.st.pending = [] ∧
+      c'.st.alias = c.st.alias ∧ c'.st.peer = c.st.peer := by
+  induction ids with
+  | nil => intro conns id c h; cases h
+  | cons i ids ih =>
+    intro conns id c hmem hc
+    simp only [closeIds]
+    by_cases hi : id = i
+    · subst hi
+      simp only [hc]
+      by_cases hin : id ∈ ids
+      · obtain ⟨c', h1, h2, h3, h4, h5⟩ := ih (setConn id (closeConn env c).conn conns) id (closeConn env c).conn hin
+          (lookup_setConn_eq _ _ _)
+        exact ⟨c', h1, h2, h3, by rw [h4, closeConn_eq], by rw [h5, closeConn_eq]⟩
+      · refine ⟨(closeConn env c).conn, ?_, ?_, ?_, ?_, ?_⟩
+        · rw [closeIds_lookup_other env ids _ id hin, lookup_setConn_eq]
+        all_goals (rw [closeConn_eq])
+    · have hin : id ∈ ids := by
+        rcases List.mem_cons.mp hmem with h | h
+        · exact absurd h hi
+        · exact h
+      cases hci : conns.lookup i with
+      | none => exact ih conns id c hin hc
+      | some ci =>
+        simp only []
+        exact ih _ id c hin (by rw [lookup_setConn_ne i id _ _ hi]; exact hc)
+
+/-- with distinct ids the events are exactly the error replies of each connection's own pending table, connection
+    after connection in list order -/
+theorem closeIds_events (env : Env) (ids : List Nat) : ∀ (conns : List (Nat × Conn)), ids.Nodup →
+    (closeIds env conns ids).2 =
+      ids.flatMap (fun id => match conns.lookup id with
+                             | some c => c.st.pending.map (clearEv env c.st.peer)
+                             | none => []) := by
+  induction ids with
+  | nil => intro conns _; rfl
+  | cons i ids ih =>
+    intro conns hnd
+    obtain ⟨hni, hnd'⟩ := List.nodup_cons.mp hnd
+    simp only [closeIds, List.flatMap_cons]
+    cases hc : conns.lookup i with
+    | none => simp only [List.nil_append]; exact ih conns hnd'
+    | some c =>
+      simp only []
+      rw [ih _ hnd', closeConn_eq]
+      congr 1
+      apply flatMap_congr_mem
+      intro j hj
+      have hne : j ≠ i := fun h => hni (h ▸ hj)
+      rw [lookup_setConn_ne i j _ _ hne]
+
 end QmiModel.Frame
